@@ -165,6 +165,7 @@ Lang(G, f, d) ==
       [] f.k = "union" -> UNION {Lang(G, f.es[i], d) : i \in DOMAIN f.es}
       [] f.k = "tuple" -> {TupleT(kids) : kids \in ProdSeq([i \in DOMAIN f.es |-> Lang(G, f.es[i], d)])}
       [] f.k = "base" /\ f.s = "bool" -> {BoolV(0), BoolV(1)}
+      [] f.k = "base" /\ f.s = "int"  -> {IntV(0)}          \* unrefined values are abstracted to their type
       [] f.k = "ann" /\ f.mh.k = "IntRange" -> {IntV(v) : v \in f.mh.lo..f.mh.hi}
       [] f.k = "ann" /\ f.mh.k = "IntList"  -> {IntV(f.mh.vals[i]) : i \in DOMAIN f.mh.vals}
       [] f.k = "ann" /\ f.mh.k = "VarRange" -> {StrV(f.mh.opts[i]) : i \in DOMAIN f.mh.opts}
